@@ -155,15 +155,33 @@ def evaluate(case):
     out = {"status": "ok", "problems": []}
     P = out["problems"]
     with genpkg.scratch() as d:
-        target = os.path.join(d, "out_schema." + fmt)
+        target = os.path.join(d, "out_schema." + case.get("ext", fmt))
         sec = {"target_file_path": target}
         if vnames:
             sec["schema_variable_name"], sec["type_map_variable_name"] = vnames
-        if source == "sdl":
+        if source in ("sdl", "both"):
             sp = os.path.join(d, "schema.graphql")
             open(sp, "w", encoding="utf-8").write(sdl)
             sec["schema_path"] = sp
-        else:
+        if source == "both":
+            # the documentation gives schema_path priority: the remote endpoint (serving an OLDER schema) must not be consulted at all
+            sec["remote_schema_url"] = "http://verif.invalid/graphql"
+            stale = build_schema("type Query { stale: Int }")
+            asked = {"n": 0}
+
+            def stale_post(url, json=None, headers=None, verify=True, **kw):
+                asked["n"] += 1
+                res = graphql_sync(stale, json["query"])
+
+                class R:
+                    is_success = True
+                    status_code = 200
+
+                    def json(self_):
+                        return {"data": res.data}
+                return R()
+            acs.httpx.post = stale_post
+        if source == "introspection":
             sec["remote_schema_url"] = "http://verif.invalid/graphql"
 
             class Resp:
@@ -190,6 +208,8 @@ def evaluate(case):
             out.update(status="gen_error", error=f"{type(e).__name__}: {str(e)[:400]}", error_type=type(e).__name__)
             return out
         text = open(target, encoding="utf-8").read()
+        if source == "both" and asked["n"]:
+            P.append(("remote_consulted_although_schema_path_given", f"{asked['n']} introspection request(s) sent"))
         if fmt == "py":
             try:
                 code = compile(text, target, "exec")
@@ -317,6 +337,13 @@ def build_cases(tier):
                 cases.append(dict(sdl=sdl, components=combo, format="py", vars=vn, source="sdl"))
             for fmt in ("py", "graphql"):
                 cases.append(dict(sdl=sdl, components=combo, format=fmt, vars=None, source="introspection"))
+    # spelling of the target file extension (the settings accept any case) and both schema sources configured at once
+    for comp in ("interface_chain", "input_defaults_composite", "directive_definitions"):
+        sdl = build_sdl((comp,))
+        for fmt, ext in (("py", "PY"), ("py", "Py"), ("graphql", "GRAPHQL"), ("gql", "Gql"), ("graphql", "GraphQL")):
+            cases.append(dict(sdl=sdl, components=(comp,), format=fmt, ext=ext, vars=None, source="sdl", tags={f"target_extension:{ext}"}))
+        for fmt in ("py", "graphql"):
+            cases.append(dict(sdl=sdl, components=(comp,), format=fmt, vars=None, source="both", tags={"both_sources"}))
     all_sdl = build_sdl([n for n in names if n not in NO_BASE and n != "schema_description"])
     cases.append(dict(sdl=all_sdl, components=("ALL",), format="py", vars=None, source="sdl"))
     cases.append(dict(sdl=all_sdl, components=("ALL",), format="graphql", vars=None, source="sdl"))
@@ -333,7 +360,7 @@ def main(tier):
     distinct = set()
     for case, (st, r) in zip(cases, results):
         feats = set(case.get("tags") or ()) | {f"component:{c}" for c in case["components"]} | {f"format:{case['format']}", f"source:{case['source']}", "vars:" + ("default" if not case["vars"] else case["vars"][0])}
-        desc = {"components": list(case["components"]), "format": case["format"], "variables": case["vars"], "source": case["source"], "sdl": case["sdl"][:3000]}
+        desc = {"components": list(case["components"]), "format": case["format"], "variables": case["vars"], "source": case["source"], "sdl": case["sdl"][:3000], "ext": case.get("ext")}
         distinct.add(case["sdl"])
         if rep.triage:
             rep.seen(feats)
@@ -364,6 +391,8 @@ def replay(path):
     genpkg.warm()
     case = dict(sdl=next(x["sdl"] for x in build_cases("thorough") if list(x["components"]) == c["components"]), components=tuple(c["components"]), format=c["format"],
                 vars=tuple(c["variables"]) if c["variables"] else None, source=c["source"])
+    if c.get("ext"):
+        case["ext"] = c["ext"]
     st, r = pool.run_forked(evaluate, case)
     print(st, r)
     return 1 if st != "ok" or r["status"] != "ok" or r["problems"] else 0
